@@ -156,7 +156,7 @@ func init() {
 	Properties["C19"] = func(env *Env) []*Harness {
 		return []*Harness{HImports(), HMock("full"), HVars(), HRun(), HMain(), HPairName()}
 	}
-	Properties["C11"] = func(env *Env) []*Harness { return []*Harness{HImports(), HMock("light"), HMock("full")} }
+	Properties["C11"] = func(env *Env) []*Harness { return []*Harness{HAliases(), HImports(), HMock("light"), HMock("full")} }
 	Properties["C12"] = func(env *Env) []*Harness { return []*Harness{HVars()} }
 	Properties["C14"] = func(env *Env) []*Harness { return []*Harness{HOrder(), HImports()} }
 	Properties["C15"] = func(env *Env) []*Harness { return []*Harness{HRun(), HFixpoint()} }
